@@ -5,6 +5,8 @@ import json, glob, os
 V = os.path.dirname(os.path.dirname(os.path.abspath(__file__)))
 old = json.load(open(os.path.join(V, "floors.json")))
 new = {}
+# rules whose instances are loops / call sites that a refactoring may legitimately replace by library algorithms
+OVERRIDE = {"C03.cover": 0.5, "C02.extent": 0.6, "C02.reads": 0.5, "C01.reads": 0.5, "C03.shift": 0.6, "C03.empty": 0.6, "C01.window": 0.5}
 for f in sorted(glob.glob(os.path.join(V, "evidence", "C*.json"))):
     e = json.load(open(f))
     for rid, r in e["coverage"].get("rules", {}).items():
@@ -13,6 +15,6 @@ for f in sorted(glob.glob(os.path.join(V, "evidence", "C*.json"))):
             new[rid] = {k: min(v, int(0.9 * (n if k == "quick" else v / 0.9))) for k, v in old[rid].items()}
             new[rid]["quick"] = min(old[rid].get("quick", n), int(0.9 * n))
         elif n > 0:
-            new[rid] = max(1, int(0.8 * n))
+            new[rid] = max(1, int(OVERRIDE.get(rid, 0.8) * n))
 json.dump(new, open(os.path.join(V, "floors.json"), "w"), indent=1)
 print(len(new), "floors")
